@@ -44,6 +44,9 @@ INSTITUTIONS = [
     # URLs with percent-escapes and sub-delimiters: requests go to the URL exactly as configured / advertised
     {"P": "https://ofx.delta-cu.coop/cgi-bin/ofx%20gw/a;v=1,2@x+y:z?inst=%2Fd&k=a=b", "org": "DELTA", "fid": "303",
      "S": ["https://ofx.delta-cu.coop/cgi-bin/ofx%20gw/a;v=1,2@x+y:z?inst=%2Fd&k=a=b", "https://ofx.delta-cu.coop/svc%2Fstmt;jsessionid=1?a=%41", "https://d%65lta.example.net:8443/o+f,x"]},
+    # another server that reports the same ORG/FID as the first (a hosting provider's second customer): what one client
+    # learnt about its server is nothing another client may use
+    {"P": "https://hosted.alpha-services.net/bank2/ofx", "org": "ALPHA", "fid": "101", "S": ["https://hosted.alpha-services.net/bank2/ofx", "https://hosted.alpha-services.net/bank2/stmt", "https://stmt.alpha-services.net/b2"]},
 ]
 REDIRECT_TARGET = "https://elsewhere.example.net/collect"
 OTHER_PROFILE_URLS = ["https://profiles.example.org/prof", "https://www.beta-bank.org/cgi/ofx", "https://ofx.alpha-bank.com/alt%2Fprofile;x=1"]
@@ -111,7 +114,7 @@ class ClientMachine(RuleBasedStateMachine):
         return 200, headers, b"<OFX>fixture reply</OFX>"
 
     # -- rules ----------------------------------------------------------------
-    @initialize(specs=st.lists(st.tuples(st.integers(0, 2), st.booleans(), st.sampled_from(["InetClntApp/3.0", "MyAgent/1.0 (x)", "curl/8", ""]), st.sampled_from([102, 103, 203, 220])), min_size=1, max_size=3))
+    @initialize(specs=st.lists(st.tuples(st.sampled_from([0, 0, 1, 2, 3, 3]), st.booleans(), st.sampled_from(["InetClntApp/3.0", "MyAgent/1.0 (x)", "curl/8", ""]), st.sampled_from([102, 103, 203, 220])), min_size=1, max_size=3))
     def make_clients(self, specs):
         from ofxtools.Client import OFXClient
 
@@ -134,7 +137,7 @@ class ClientMachine(RuleBasedStateMachine):
         ci = i % len(self.clients)
         c = cl["c"]
         I = INSTITUTIONS[cl["inst"]]
-        key = (I["org"], I["fid"])
+        key = (I["org"], I["fid"], I["P"])
         P = I["P"]
         inconsistent = s_choice == 3
         S = I["S"][s_choice % 3]
@@ -342,7 +345,13 @@ class ClientMachine(RuleBasedStateMachine):
                 self.absorb(ci, rec)
         # the cache may have been written by a successful profile reply even when we could not predict the hops
         d = self.tmp / "fiprofiles"
-        cached = d.exists() and any(p.name.startswith(f"{key[0]}-{key[1]}") and p.name.endswith(".profrs") and p.name not in self.foreign_cache for p in d.iterdir())
+        # which file belongs to this client's own server: several servers may share ORG/FID, so the name the library is seen
+        # to use (ORG-FID-<hash of the URL>) is matched exactly; under another naming scheme the model simply does not learn
+        # of caches it did not predict, and the server then answers with a full profile instead of "up to date"
+        import hashlib
+
+        mine = f"{key[0]}-{key[1]}-{hashlib.sha1(key[2].encode('utf_8')).hexdigest()[:12]}.profrs"
+        cached = d.exists() and any(p.name == mine and p.name not in self.foreign_cache for p in d.iterdir())
         if cached and not self.cache.get(key):
             self.cache[key] = True
 
